@@ -1690,6 +1690,12 @@ class Ev:
             return o[k]
         if isinstance(o, AttrModel):
             k = self.hashable(k)
+            if k not in o.data and o.elemsize == 1:
+                t = str(o.type)
+                if "bool" in t:
+                    return False            # default value of the element type
+                if "int" in t:
+                    return 0
             return o.data.get(k, Opaque(("default", id(o))))
         if isinstance(o, Obj) and "__tuple__" in o.fields:
             return self.getitem(tuple(o.fields[n] for n in o.fields["__tuple__"]), k, node)
